@@ -85,7 +85,7 @@ def _other_key_struct(label):
 def _run(ctx, proto, who, defect, inst, extra_inter, vdepth=None):
     """returns (client ret, server ret, stalled)"""
     shim().freeze_time(pki.T0)
-    n_inter = 1 + extra_inter
+    n_inter = max(0, 1 + extra_inter)
     if vdepth is not None:
         n_inter = min(n_inter, vdepth)      # the honest chain stays inside the configured verification depth
     tw = CERT_DEFECTS.get(defect) if defect in CERT_DEFECTS else None
@@ -140,18 +140,22 @@ def _run(ctx, proto, who, defect, inst, extra_inter, vdepth=None):
 
 # vdepth: the verification depth both endpoints are configured with (None = the library default; 0 = the anchor must have issued the
 # peer's certificate directly); the honest chains are shortened to fit
-case_s = st.fixed_dictionaries({"cell": st.integers(0, len(CELLS) - 1), "inst": st.integers(0, 5), "extra_inter": st.integers(0, 1),
+# extra_inter -1: the end-entity certificates are issued by the trust anchor itself (no intermediate CA in the list), whatever the depth setting
+case_s = st.fixed_dictionaries({"cell": st.integers(0, len(CELLS) - 1), "inst": st.integers(0, 5), "extra_inter": st.sampled_from([-1, -1, 0, 0, 1]),
                                 "vdepth": st.sampled_from([None, None, None, 0, 0, 1, 2, 5])})
 
 
-@P.sub("matrix", case_s, quick=700, thorough=len(CELLS) * 12 * 3)
+@P.sub("matrix", case_s, quick=900, thorough=len(CELLS) * 12 * 5)
 def matrix(case, ctx):
     """one cell of the credential-defect matrix, plus its control run"""
     proto, who, defect = CELLS[case["cell"]]
     inst, extra = case["inst"], case["extra_inter"]
     vd = case.get("vdepth")
-    if vd == 0 and ((isinstance(CERT_DEFECTS.get(defect), dict) and "ca0" in CERT_DEFECTS[defect]) or defect == "leaf-signed-by-other-key"):
-        vd = 1      # the defect lives in (or is defined relative to) an intermediate CA certificate: the chain needs one
+    if (isinstance(CERT_DEFECTS.get(defect), dict) and "ca0" in CERT_DEFECTS[defect]) or defect == "leaf-signed-by-other-key":
+        # the defect lives in (or is defined relative to) an intermediate CA certificate: the chain needs one
+        extra = max(extra, 0)
+        if vd == 0:
+            vd = 1
     # control: same machinery, no defect (mutual auth when the client is the verified party)
     ctl = _run(ctx, proto, who, "control", inst, extra, vd)
     if ctl[0] == "setup-failed":
@@ -161,7 +165,7 @@ def matrix(case, ctx):
     ctx.check(ctl[0][1] == 1 and ctl[1][1] == 1, "control handshake (%s, %s verified, no defect) failed: client=%s server=%s" % (proto, who, ctl[0][1], ctl[1][1]),
               "control/%s/%s" % (proto, who))
     res = _run(ctx, proto, who, defect, inst, extra, vd)
-    ctx.case(nontrivial=True, classes=[proto, "verify-" + who, defect, "vdepth=%s" % vd], ident=[proto, who, defect, inst, extra, vd], sample=dict(case, proto=proto, who=who, defect=defect))
+    ctx.case(nontrivial=True, classes=[proto, "verify-" + who, defect, "vdepth=%s" % vd, "intermediates=%d" % (max(0, 1 + extra) if vd is None else min(max(0, 1 + extra), vd))], ident=[proto, who, defect, inst, extra, vd], sample=dict(case, proto=proto, who=who, defect=defect))
     if res[0] == "setup-failed":
         # the defective credentials were refused when they were configured: nothing to bypass
         ctx.note("refused-at-setup/" + defect)
@@ -171,7 +175,7 @@ def matrix(case, ctx):
         ctx.note("inconclusive-timeout"); return
     verifier_ret = hc[1] if who == "server" else hs[1]
     ctx.check(verifier_ret != 1, "%s %s reports a completed handshake although the %s's credentials have the defect '%s' (client ret=%s, server ret=%s, chain with at most %d intermediate CA, verification depth %s)" %
-              (proto, "client" if who == "server" else "server", who, defect, hc[1], hs[1], 1 + extra, vd),
+              (proto, "client" if who == "server" else "server", who, defect, hc[1], hs[1], max(0, 1 + extra), vd),
               "bypass/%s/%s/%s" % (proto, who, defect))
 
 
